@@ -81,6 +81,15 @@ func genC16(r *Rng, tier string, idx int) *Plan {
 		p.Spec.HandlerMode = true
 		p.Spec.TriggerRules = nil
 	}
+	for i := range p.Spec.Filters {
+		if p.Spec.Filters[i].Discovery && r.Chance(0.4) {
+			// the provider's discovery endpoint fails a few times while checks are in flight
+			for k := r.Range(1, 3); k > 0; k-- {
+				p.Faults = append(p.Faults, Fault{Site: "idp.disc", Nth: r.Range(1, 4), Kind: "500"})
+			}
+			break
+		}
+	}
 	id := 0
 	n := r.Range(4, 12)
 	kinds := []string{"nocookie", "login", "login", "fresh", "fresh", "refresh", "refresh", "logout", "callback-garbage", "reconcile", "ca-rewrite", "load-tls"}
@@ -216,6 +225,13 @@ func runC16(p *Plan) *Result {
 	}
 	_ = os.WriteFile(caPath, []byte(initial), 0o600)
 	w := NewWorld(&spec, p.SchedSeed, p.Policy, nil)
+	for _, ft := range p.Faults {
+		if ft.Site == "idp.disc" {
+			for _, ip := range w.IdPs {
+				ip.LeanDiscFail = append(ip.LeanDiscFail, ft.Nth)
+			}
+		}
+	}
 	w.Lean = true
 	installHooks(w.Sim)
 	defer removeHooks()
